@@ -486,6 +486,86 @@ def run_op2(tier, res, part):
 
 
 # ------------------------------------------------------------------ driver
+def op4_object_history(res, maxlen):
+    """K2 over one OP4 reader object: EVERY sequence of up to `maxlen` (file, method) events over a pool of files
+    that differ in everything the reader detects per file (text/binary, byte order, key width, precision, layout);
+    every result must equal the same call on a fresh object"""
+    from pyyeti.nastran import op4
+
+    msgs = []
+    M1 = mat_from_pattern(3, 2, 0b101101, False, False)
+    M2 = mat_from_pattern(2, 3, 0b011110, True, False)
+    mats = [dict(name="AA", A=M1, form=2, mtype=2), dict(name="BB", A=M2, form=2, mtype=4)]
+    mats_s = [dict(name="AA", A=M1.astype(np.float32).astype(float), form=2, mtype=1)]
+    pool = {}
+    pool["le32"] = op4_enc.encode_binary(mats, endian="<", bit64=False, layout="dense")[0]
+    pool["be32big"] = op4_enc.encode_binary(mats, endian=">", bit64=False, layout="bigmat")[0]
+    pool["le64"] = op4_enc.encode_binary(mats, endian="<", bit64=True, layout="nonbigmat")[0]
+    pool["be64"] = op4_enc.encode_binary(mats, endian=">", bit64=True, layout="dense")[0]
+    pool["single"] = op4_enc.encode_binary(mats_s, endian="<", bit64=False, layout="dense")[0]
+    pool["ascE16"] = op4_enc.encode_ascii([dict(m) for m in mats], 16, 9, 5, "E", "dense")[0]
+    pool["ascD24big"] = op4_enc.encode_ascii([dict(m) for m in mats], 24, 17, 3, "D", "bigmat")[0]
+    files = {}
+    for k, data in pool.items():
+        fn = os.path.join(scratch(), "h_%s_%d.op4" % (k, os.getpid()))
+        with open(fn, "wb") as f:
+            f.write(data if isinstance(data, bytes) else data.encode())
+        files[k] = fn
+    methods = {
+        "listload": lambda o, fn: o.listload(fn),
+        "dctload": lambda o, fn: o.dctload(fn),
+        "dir": lambda o, fn: o.dir(fn, verbose=False),
+        "sparse": lambda o, fn: o.listload(fn, sparse=True),
+        "named": lambda o, fn: o.listload(fn, namelist=["aa"]),
+    }
+
+    def canon(x):
+        if isinstance(x, dict):
+            return tuple((k, canon(v)) for k, v in sorted(x.items()))
+        if isinstance(x, (list, tuple)):
+            return tuple(canon(v) for v in x)
+        if hasattr(x, "toarray"):
+            x = x.toarray()
+        if isinstance(x, np.ndarray):
+            return (x.shape, str(x.dtype), x.tobytes())
+        return x
+
+    events = [(fk, mk) for fk in files for mk in methods]
+    fresh = {}
+    with warnings.catch_warnings():
+        warnings.simplefilter("ignore")
+        for fk, mk in events:
+            fresh[(fk, mk)] = canon(methods[mk](op4.OP4(), files[fk]))
+        # all ordered pairs of files x a rotating choice of methods; all ordered triples of files with listload
+        seqs = []
+        fks, mks = list(files), list(methods)
+        for i, a in enumerate(fks):
+            for j, b in enumerate(fks):
+                for m1 in mks:
+                    seqs.append(((a, m1), (b, mks[(i + j + mks.index(m1)) % len(mks)])))
+        if maxlen >= 3:
+            for a, b, c in itertools.product(fks, repeat=3):
+                seqs.append(((a, "listload"), (b, "dir"), (c, "listload")))
+        for seq in seqs:
+            o = op4.OP4()
+            res.traces += 1
+            for step, (fk, mk) in enumerate(seq):
+                res.transitions += 1
+                try:
+                    got = canon(methods[mk](o, files[fk]))
+                except Exception as e:  # noqa
+                    msgs.append((dict(seq=[list(x) for x in seq]), "op4 object history %s: call %d raised %r" % (list(seq), step + 1, e)))
+                    break
+                if got != fresh[(fk, mk)]:
+                    msgs.append((dict(seq=[list(x) for x in seq]), "op4 object history %s: call %d (%s of file %s) differs from the same call on a fresh OP4 object" % (list(seq), step + 1, mk, fk)))
+                    break
+            if len(msgs) > 5:
+                break
+    res.states += len(seqs)
+    res.ev("op4/object-history", n=0)
+    return msgs
+
+
 def shards(tier, seed):
     cases = op4_matrices(tier)
     ncol = 6 if tier == "quick" else 8
@@ -495,6 +575,7 @@ def shards(tier, seed):
     out = [dict(part="op4", cases=cases[i::n], tier=tier) for i in range(n)]
     out.append(dict(part="op2", which="matrix-strings", tier=tier))
     out.append(dict(part="op2", which="sequences", tier=tier))
+    out.append(dict(part="op4hist", maxlen=2 if tier == "quick" else 3, tier=tier))
     out.sort(key=lambda s: 0 if s["part"] == "op2" else 1)
     return out
 
@@ -503,7 +584,11 @@ def run_shard(sh):
     res = Result()
     tier = sh["tier"]
     try:
-        if sh["part"] == "op4":
+        if sh["part"] == "op4hist":
+            for extra, m in op4_object_history(res, sh["maxlen"]):
+                res.viol(dict(part="op4hist", maxlen=sh["maxlen"], tier=tier, **extra), m, kind="op4hist")
+            res.sample(dict(sh))
+        elif sh["part"] == "op4":
             for case in sh["cases"]:
                 for extra, m in run_op4_case(tuple(case), tier, res):
                     res.viol(dict(part="op4", case=list(case), tier=tier, **extra), m, kind="op4-" + extra["fmt"] + "-" + extra["layout"] + "-" + m.split(":")[1][:30])
@@ -522,6 +607,8 @@ def replay(case):
     res = Result()
     tier = case.get("tier", "quick")
     try:
+        if case.get("part") == "op4hist":
+            return [m for ex, m in op4_object_history(res, case["maxlen"]) if jsame(ex.get("seq"), case.get("seq"))]
         if case.get("part") == "op4":
             out = run_op4_case(tuple(case["case"]), tier, res)
             keys = [k for k in case if k not in ("part", "case", "tier")]
